@@ -222,6 +222,22 @@ func truncDivRem(a, b *Term) (q, r *Term) {
 		qq, rr := new(big.Int).QuoRem(a.z, b.z, new(big.Int))
 		return mkInt(qq), mkInt(rr)
 	}
+	defer func() {
+		// remember q*b = a - r (keeps later products linear) and the ranges
+		quoInfo[q.id] = quoRec{a, b, r}
+		if ia := ivOf(a); ia != nil {
+			m := maxBig(new(big.Int).Abs(ia.lo), new(big.Int).Abs(ia.hi))
+			if _, ok := ivMemo[q.id]; !ok || ivMemo[q.id] == nil {
+				ivMemo[q.id] = &ival{new(big.Int).Neg(m), m}
+			}
+		}
+		if ib := ivOf(b); ib != nil {
+			m := new(big.Int).Sub(maxBig(new(big.Int).Abs(ib.lo), new(big.Int).Abs(ib.hi)), big.NewInt(1))
+			if m.Sign() >= 0 {
+				ivMemo[r.id] = &ival{new(big.Int).Neg(m), m}
+			}
+		}
+	}()
 	zero := mkInt64(0)
 	ed := mkIBin(OIDiv, a, b) // Euclidean: a = b*ed + em, 0 <= em < |b|
 	em := mkIBin(OIMod, a, b)
@@ -232,6 +248,49 @@ func truncDivRem(a, b *Term) (q, r *Term) {
 	q = mkIte(adj, mkIte(bpos, mkIBin(OIAdd, ed, one), mkIBin(OISub, ed, one)), ed)
 	r = mkIBin(OISub, a, mkIBin(OIMul, b, q))
 	return
+}
+
+type quoRec struct{ a, b, r *Term }
+
+var quoInfo = map[int]quoRec{}
+
+// smartMul multiplies Int terms, using q*b = a - r for a known truncated
+// quotient q = a quo b and distributing over +/- constants, so that the
+// remainder computations of the rounding divisions stay linear.
+func smartMul(x, y *Term) *Term {
+	if x.op == OConst || y.op == OConst {
+		return mkIBin(OIMul, x, y)
+	}
+	if qi, ok := quoInfo[x.id]; ok && qi.b == y {
+		return mkIBin(OISub, qi.a, qi.r)
+	}
+	if qi, ok := quoInfo[y.id]; ok && qi.b == x {
+		return mkIBin(OISub, qi.a, qi.r)
+	}
+	for _, p := range [][2]*Term{{x, y}, {y, x}} {
+		s, o := p[0], p[1]
+		if (s.op == OIAdd || s.op == OISub) && (s.args[0].op == OConst || s.args[1].op == OConst) {
+			l, r := smartMul(s.args[0], o), smartMul(s.args[1], o)
+			return mkIBin(s.op, l, r)
+		}
+		if s.op == OIte && (quoHas(s.args[1], o) || quoHas(s.args[2], o)) {
+			return mkIte(s.args[0], smartMul(s.args[1], o), smartMul(s.args[2], o))
+		}
+	}
+	return mkIBin(OIMul, x, y)
+}
+
+func quoHas(t, b *Term) bool {
+	if qi, ok := quoInfo[t.id]; ok && qi.b == b {
+		return true
+	}
+	if (t.op == OIAdd || t.op == OISub) && (t.args[0].op == OConst || t.args[1].op == OConst) {
+		return quoHas(t.args[0], b) || quoHas(t.args[1], b)
+	}
+	if t.op == OIte {
+		return quoHas(t.args[1], b) || quoHas(t.args[2], b)
+	}
+	return false
 }
 
 func init() {
@@ -251,6 +310,9 @@ func init() {
 					r.Mul(x.c, y.c)
 				}
 				return setBig(args[0], &BigInt{c: r})
+			}
+			if op == OIMul {
+				return setBig(args[0], mkBigInt(smartMul(x.term(), y.term())))
 			}
 			return setBig(args[0], mkBigInt(mkIBin(op, x.term(), y.term())))
 		}
@@ -328,6 +390,9 @@ func init() {
 		case int64:
 			return setBig(args[0], &BigInt{c: new(big.Int).SetUint64(uint64(v))})
 		case *Term:
+			if v.sort.K == KInt {
+				return setBig(args[0], mkBigInt(v))
+			}
 			return setBig(args[0], mkBigInt(mkBv2Nat(v)))
 		}
 		panic("SetUint64")
@@ -397,12 +462,18 @@ func init() {
 		if x.isConc() {
 			return x.c.Int64()
 		}
+		if in.intMode {
+			return fromInt(wrapInt(x.t, 64, true), 64, true)
+		}
 		return fromBV(mkInt2Bv(x.t, 64), 64, true)
 	})
 	regBig("Uint64", func(fr *frame, fn *ssa.Function, args []Val) Val {
 		x := bigOf(fr, args[0])
 		if x.isConc() {
 			return int64(x.c.Uint64())
+		}
+		if in.intMode {
+			return fromInt(wrapInt(x.t, 64, false), 64, false)
 		}
 		return fromBV(mkInt2Bv(x.t, 64), 64, false)
 	})
@@ -452,6 +523,28 @@ func init() {
 			return setBig(args[0], mkBigInt(mkIBin(OIDiv, x.term(), p))) // floor, like Rsh
 		}
 	}
+	regBig("Append", func(fr *frame, fn *ssa.Function, args []Val) Val {
+		x := bigOf(fr, args[0])
+		if x.isConc() {
+			return bigMethodNative(fr, fn, args)
+		}
+		if !opaqueIntText {
+			unsupported("text of a symbolic big integer (set opaque_int_text if no assertion depends on it)")
+		}
+		opaqueIntUses++
+		return appendVals(args[1].([]Val), strBytes("‹int›"))
+	})
+	regBig("String", func(fr *frame, fn *ssa.Function, args []Val) Val {
+		x := bigOf(fr, args[0])
+		if x.isConc() {
+			return bigMethodNative(fr, fn, args)
+		}
+		if !opaqueIntText {
+			unsupported("text of a symbolic big integer (set opaque_int_text if no assertion depends on it)")
+		}
+		opaqueIntUses++
+		return "‹int›"
+	})
 	regBig("Lsh", shift(true))
 	regBig("Rsh", shift(false))
 }
